@@ -638,7 +638,7 @@ pub fn h_clone_sk(n: usize, cap: usize, tab: [u8; 8], op: u8, side: u8, nd: bool
 harnesses! {
     reserve_n3_c3_t0 [6] => h_capacity_t(3, 3, tab_of(6), 0, false, 0); //@ q=C13,C20 t=C07,C02,C04,C05,C06 to=900
     reserve_n3_c3_t1 [6] => h_capacity_t(3, 3, tab_of(6), 0, false, 1); //@ q=C13 t=C07,C04,C05,C06,C20,C02 to=900
-    reserve_n3_c3_sym [6] => h_capacity(3, 3, tab_of(6), 0, false); //@ t=C13,C07 to=1200
+    reserve_n3_c3_sym [6] => h_capacity(3, 3, tab_of(6), 0, false); //@ t=C13 to=1200
     reserve_n0_c0 [4] => h_capacity(0, 0, tab_of(6), 0, false); //@ q=C13 t=C07 to=600
     reserve_n2_c3_collide_t0 [5] => h_capacity_t(2, 3, tab_of(0), 0, false, 0); //@ q=C13 t=C04,C07 to=900
     reserve_n3_c3_nd [6] => h_capacity(3, 3, tab_of(6), 0, true); // not registered: solver-chosen placement + tombstones on a reallocation runs out of memory (12 GB) - measured
@@ -658,13 +658,13 @@ harnesses! {
     shrink_to_n2_c7_t0 [5] => h_capacity_t(2, 7, tab_of(6), 2, false, 0); //@ q=C13 t=C07,C04,C05,C06,C20 to=900
     shrink_to_n2_c7_t1 [5] => h_capacity_t(2, 7, tab_of(6), 2, false, 1); //@ q=C13 t=C07,C04,C05,C06,C20 to=900
     shrink_to_n2_c7_sym [5] => h_capacity(2, 7, tab_of(6), 2, false); //@ t=C13 to=1200
-    shrink_to_n3_c7 [6] => h_capacity(3, 7, tab_of(6), 2, false); //@ t=C13,C07 to=1200
+    shrink_to_n3_c7 [6] => h_capacity(3, 7, tab_of(6), 2, false); //@ t=C13 to=1200
     shrink_to_fit_n2_c7 [5] => h_capacity(2, 7, tab_of(6), 3, false); //@ q=C13,C07,C20 t=C04,C05,C06 to=1200
     shrink_to_n1_c3_t0 [4] => h_capacity_t(1, 3, tab_of(6), 2, false, 0); //@ q=C13 t=C07 to=900
     shrink_to_fit_n0_c3 [4] => h_capacity(0, 3, tab_of(6), 3, false); //@ q=C13 t=C07 to=600
     shrink_to_fit_tomb_n2_c3 [5] => h_shrink_tomb(2, 3, tab_of(6), true, 1); //@ q=C13 to=900
     shrink_to_tomb_n3_c7 [6] => h_shrink_tomb(3, 7, tab_of(6), false, 2); //@ t=C13 to=1800
-    shrink_to_fit_n2_c7_nd [5] => h_capacity(2, 7, tab_of(6), 3, true); //@ t=C13,C07 to=2400
+    shrink_to_fit_n2_c7_nd [5] => h_capacity(2, 7, tab_of(6), 3, true); //@ t=C13 to=2400
     grow_insert_n3_c3_t0 [6] => h_grow_insert_t(3, 3, tab_of(6), false, 0); //@ q=C13,C07,C04,C05,C06,C20,C01,C02 to=1200
     grow_insert_n3_c3_t1 [6] => h_grow_insert_t(3, 3, tab_of(6), false, 1); //@ q=C13,C07,C05,C06 t=C04,C20,C01,C02 to=1200
     grow_insert_n3_c3_t2 [6] => h_grow_insert_t(3, 3, tab_of(6), false, 2); //@ q=C13,C07 t=C04,C05,C06,C20,C01,C02 to=1200
